@@ -28,6 +28,7 @@ import subprocess
 import sys
 import contextlib
 import json
+import re
 import warnings
 
 import numpy as np
@@ -617,7 +618,11 @@ def panel_lifecycle(ctx, hook=None, n=None):
 
 
 # ------------------------------------------------------------------------------------------ PanelAssembly
-ASM_OPS = ['size', 'k0:0', 'k0:1', 'kG0', 'kG', 'kM', 'kT', 'fint', 'fext', 'conn:0', 'conn:1', 'uvw', 'strain', 'stress']
+# k0:<conn>[:<fin>] / conn:<conn>[:<fin>] — <conn>: 0 no `conn=` argument, 1 `conn=` ANOTHER list, 2 `conn=asm.conn` (the own list object
+# itself: for the model the same as 0); <fin>: the `finalize=` argument (default 1).  calc_k0(conn=B) / get_k0_conn(conn=B, finalize=False) ...
+# must neither use nor fill the cache `asm.k0_conn` (Lean: Asm.getConn, theorems asm_conn_matches_request, asm_cache_own_finalized)
+ASM_OPS = ['size', 'k0:0', 'k0:1', 'k0:2', 'k0:0:0', 'k0:1:0', 'kG0', 'kG', 'kM', 'kT', 'fint', 'fext', 'conn:0', 'conn:1', 'conn:2',
+           'conn:0:0', 'conn:1:0', 'uvw', 'strain', 'stress']
 
 
 def gen_asm_def(rng):
@@ -652,11 +657,17 @@ def asm_size(AD):
 
 def asm_call(op, c, other):
     name, _, flag = op.partition(':')
-    f = flag == '1'
+    flag, _, fin = flag.partition(':')
+
+    def conn_kw(a):
+        kw = dict(conn=other) if flag == '1' else dict(conn=a.conn) if flag == '2' else {}
+        if fin == '0':
+            kw['finalize'] = False
+        return kw
     if name == 'size':
         return lambda a: a.get_size()
     if name == 'k0':
-        return lambda a: a.calc_k0(silent=True, **(dict(conn=other) if f else {}))
+        return lambda a: a.calc_k0(silent=True, **conn_kw(a))
     if name == 'kG0':
         return lambda a: a.calc_kG0(silent=True)
     if name == 'kG':
@@ -670,7 +681,7 @@ def asm_call(op, c, other):
     if name == 'fext':
         return lambda a: a.calc_fext(silent=True)
     if name == 'conn':
-        return lambda a: a.get_k0_conn(**(dict(conn=other) if f else {}))
+        return lambda a: a.get_k0_conn(**conn_kw(a))
     if name == 'uvw':
         return lambda a: a.uvw(c, 'g', gridx=3, gridy=4)
     if name == 'strain':
@@ -726,7 +737,10 @@ def asm_lines(AD, ops):
 
 def classify_tokens(t1, t2):
     """identity of the known order dependence the model predicts for two different result tokens"""
-    if ('own{' in t1 and 'other{' in t2) or ('other{' in t1 and 'own{' in t2):
+    head = lambda t: re.findall(r'(own|other):(sym|raw)\{', t)
+    if head(t1) != head(t2):
+        # which list / which finalize flag: the repaired model never predicts this for one and the same call (theorem
+        # asm_conn_matches_request), so this identity is a 'fixed' entry and the disagreement is reported
         return 'C20-asm-k0_conn-cache-ignores-conn'
     return 'C20-kt_kr-builds-lam-without-offset'
 
@@ -741,6 +755,7 @@ def asm_case(ctx, AD, ops, replies, dist):
     mref = {op: (parse_asm_reply(replies[1 + 2 * k])[0], parse_asm_reply(replies[2 + 2 * k])[1])
             for k, op in enumerate(distinct)}
     ctx.evaluations += len(ops)
+    tie_bad = None          # first disagreement model / implementation; reported after the property itself was evaluated on the sequence
     for i, (r, m) in enumerate(zip(recs, model)):
         dist['outcomes'][r['oc']] = dist['outcomes'].get(r['oc'], 0) + 1
         what = None
@@ -751,14 +766,22 @@ def asm_case(ctx, AD, ops, replies, dist):
         elif r['R'] != [set(x) for x in m['R']]:
             what = 'hidden attributes read per panel: model %s, implementation %s' % (
                 [sorted(x) for x in m['R']], [sorted(x) for x in r['R']])
-        if what and ctx.violation('PanelAssembly call %d (%s): %s' % (i, r['op'], what), replay):
-            return True
+        if what and tie_bad is None:
+            tie_bad = 'PanelAssembly call %d (%s): %s' % (i, r['op'], what)
         if r['mutated'] and ctx.violation('PanelAssembly call %d (%s) modified the caller-supplied c' % (i, r['op']),
                                           replay):
             return True
         if any(r['def_changed']) and ctx.violation('PanelAssembly call %d (%s) changed a user-supplied panel '
                                                    'definition attribute' % (i, r['op']), replay):
             return True
+        if r['oc'] == 'ok' and r['op'].startswith('conn') and not r['op'].endswith(':0:0') and not r['op'].endswith(':1:0'):
+            # a finalized connection matrix is symmetric whatever was asked for before (un-symmetrised sums are upper-heavy)
+            ctx.evaluations += 1
+            k = r['val'].toarray()
+            if not np.array_equal(k, k.T) and ctx.violation(
+                    'PanelAssembly call %d (%s): get_k0_conn with finalize=True returned a matrix that is not symmetric (max |K - K^T| = '
+                    '%.3e of max |K| = %.3e) after the calls %s' % (i, r['op'], np.abs(k - k.T).max(), np.abs(k).max(), ops[:i]), replay):
+                return True
     refs = {}
     for op in distinct:
         ra = run_asm_sequence(AD, [op], c)[0]
@@ -790,26 +813,42 @@ def asm_case(ctx, AD, ops, replies, dist):
             if not same_result(r['val'], ref):
                 ident = classify_tokens(m['tok'], reftok) if m['tok'] != reftok else None
                 note = ' [the model predicts it: %s vs %s]' % (m['tok'][-150:], reftok[-150:]) if ident else ''
-                if ctx.violation('PanelAssembly call %d (%s) returns a result different from %s%s'
-                                 % (i, op, label, note), replay, identity=ident):
+                if tie_bad:
+                    note += ' [and the implementation left the life-cycle model: %s]' % tie_bad
+                if ctx.violation('PanelAssembly call %d (%s) after the calls %s returns a result different from %s%s'
+                                 % (i, op, ops[:i], label, note), replay, identity=ident):
                     return True
                 dist['order_dependent_known'] += 1
+    if tie_bad and ctx.violation(tie_bad, replay):
+        return True
     if len(distinct) < len(ops) or any(r['oc'] != 'ok' for r in recs):
         ctx.nontrivial.add('asm' + json.dumps([panel_def_line(AD['d1']), panel_def_line(AD['d2']), ops]))
     return False
 
 
-ASM_CORPUS = [['conn:0', 'k0:0', 'kT', 'k0:0'], ['k0:0', 'k0:1', 'conn:1'], ['kM', 'kG', 'uvw', 'strain', 'stress', 'fint',
-                                                                              'k0:0', 'kM', 'kG', 'uvw', 'stress', 'fint']]
+# (sequence, zero laminate offsets?)  With zero offsets the model predicts equal tokens for every repeated call, so every comparison
+# against the fresh-assembly references is strict; with non-zero offsets the listed laminate-order finding may excuse a difference
+ASM_CORPUS = [
+    (['conn:0', 'k0:0', 'kT', 'k0:0'], False),
+    # the former finding C20-asm-k0_conn-cache-ignores-conn (repaired): another list after / before the own one ...
+    (['k0:0', 'k0:1', 'conn:1', 'k0:0', 'conn:0', 'conn:1:0', 'conn:2'], True),
+    (['k0:1', 'conn:0', 'kT', 'k0:2', 'k0:1', 'conn:1'], True),
+    (['k0:0', 'k0:1', 'conn:1', 'k0:0', 'conn:0'], False),
+    # ... and the un-symmetrised sum asked for first
+    (['conn:0:0', 'conn:0', 'k0:0', 'kT', 'fint', 'conn:0:0', 'conn:2'], True),
+    (['conn:1:0', 'k0:0:0', 'k0:0', 'conn:0', 'k0:1:0', 'k0:1', 'kT'], True),
+    (['conn:0:0', 'k0:0', 'conn:0', 'kT'], False),
+    (['kM', 'kG', 'uvw', 'strain', 'stress', 'fint', 'k0:0', 'kM', 'kG', 'uvw', 'stress', 'fint'], False),
+]
 
 
 def asm_lifecycle(ctx):
     rng = ctx.rng
     cases = []
-    for ops in ASM_CORPUS:
+    for ops, oz in ASM_CORPUS:
         AD = gen_asm_def(rng)
         AD['connGiven'] = True
-        AD['d1']['offsetZero'] = AD['d2']['offsetZero'] = False
+        AD['d1']['offsetZero'] = AD['d2']['offsetZero'] = oz
         AD['d1']['mu'] = AD['d2']['mu'] = True
         cases.append((AD, ops))
     for _ in range(ctx.scale(25, 250)):
